@@ -7,7 +7,15 @@ by none, 1..30 outputs), every node with a recorder callable of a chosen behavio
 raises, generator with k yields that then stops or raises, tuple of k); (b) graphs built by the
 fluent API (from_source / map with yields of 1..101 coordinates, explicit input placeholders);
 (c) hand-written JobInstances (keyword edges, sparse positional statics, malformed edges);
-(d) fluent.Node constructor parameters.
+(d) fluent.Node constructor parameters; (e) programs of the fluent API in which the caller's objects are
+RE-USED: a pool of Payload objects / bare callables / functools.partials (two Payloads may carry the same
+callable, or be built from the very same list and dict objects) handed to several from_source / map / map with
+a payload array / reduce with and without batch_size (batches of unequal size, a final aggregation over fewer
+inputs) / sum,max,min,prod with batch_size (backends patched to recorders) / join + reduce steps, so that one
+Payload object builds nodes with increasing, decreasing and equal numbers of inputs in any order;
+(f) programs of fluent.Payload / fluent.Node / Node.copy calls (random and, in a small scope, exhaustive).
+Hand-built nodes of equal payload share their args list and kwargs dict objects, and every graph is lowered a
+second time after all its tasks ran (lowering and running must not have written to the graph).
 Run of the REAL code: cascade.low.into.graph2job, cascade.low.views.param_source,
 RunnerContext.project, cascade.executor.runner.runner.run with a dict-backed Memory, every task
 once in topological order, and controller.notify.is_last_output_of for every dataset.
@@ -16,10 +24,13 @@ one task per node, one edge per placeholder of an input with the declared parent
 source, statics kept, the callable receives exactly the declared arguments with upstream values
 (by direct evaluation of the graph) in the declared positions, the i-th yielded value is stored
 under the output declared for it (fluent: under the i-th coordinate), a count mismatch makes run
-raise, the last handled output is the one is_last_output_of names.
+raise, the last handled output is the one is_last_output_of names.  For (e) and (f) "declared" is what the
+AUTHOR declared through the API -- the arguments given to Payload(...) plus placeholders for the node's own
+inputs -- not what the built node happens to hold.
 Correspondence: the Coq model (Low/Into.v, Low/Runner.v) evaluates the same cases and compares
 the job, param_source, received arguments, every Memory.handle call, the exception names and
-is_last_output_of."""
+is_last_output_of; Low/FluentBuild.v (Payload / Node construction over a heap of shared list objects) runs the
+programs of (f) and compares every node and every caller-held Payload at the end of the program."""
 import builtins
 import json
 import warnings
@@ -43,10 +54,14 @@ ASSUMPTIONS = [
     "graph traversal / serialise is the model of Graph/GStore.v + Graph/Export.v (C12); pydantic validation of JobInstance / Task2TaskEdge is not modelled",
     "a generator (inspect.isgenerator) is distinguished from other iterables by the `gen` flag of Iter; recorder behaviours gen/genlen are generators, tuple is not",
     "sink_input_ps is a natural number (negative positions of hand-written edges are outside the model)",
+    "Low/FluentBuild.v: only list objects live on the modelled heap (Payload.args); kwargs dicts are values (the modelled code never writes to one); "
+    "a functools.partial given to Payload / Node is its (func, args, keywords); the inputs of a Node are represented by their number",
+    "fluent programs (generator (e)): the nodes an API call creates are attributed to the payload given to that call (element-wise for payload arrays); "
+    "the graph structure (which nodes are inputs of which) is taken from the built graph, the arguments from the author's declaration",
 ]
 
 HEADER = """From Coq Require Import List String NArith.
-From EKW Require Import Graph.GStore Graph.Export Low.Into Low.Runner Low.RunnerCheck.
+From EKW Require Import Graph.GStore Graph.Export Low.Into Low.Runner Low.RunnerCheck Low.FluentBuild Low.FluentBuildCheck.
 Import ListNotations.
 Open Scope string_scope.
 """
@@ -314,6 +329,7 @@ def build_graph(spec):
     """spec -> (real Graph, list of real Node objects by spec index, fid -> callable)"""
     from earthkit.workflows.graph import Graph, Node
     objs, funcs = [], {}
+    shared = {}       # nodes with equal (callable, args, kwargs) hold the very same list and dict objects
     for nd in spec["nodes"]:
         p = nd["payload"]
         if p is None:
@@ -324,7 +340,10 @@ def build_graph(spec):
             if p["fid"] not in funcs:     # nodes with the same fid carry the very same callable object
                 funcs[p["fid"]] = make_callable(p["fid"], spec["behs"][str(p["fid"])])
             f = funcs[p["fid"]]
-            payload = (f, [realise_val(a) for a in p["args"]], {k: realise_val(v) for k, v in p["kwargs"]})
+            key = json.dumps([p["fid"], p["args"], p["kwargs"]])
+            if key not in shared:
+                shared[key] = ([realise_val(a) for a in p["args"]], {k: realise_val(v) for k, v in p["kwargs"]})
+            payload = (f, shared[key][0], shared[key][1])
         node = Node(nd["name"], None if nd["outputs"] is None else list(nd["outputs"]), payload)
         for iname, pi, oname in nd["inputs"]:      # set through .inputs: any input name is expressible
             node.inputs[iname] = objs[pi].get_output(oname)
@@ -333,9 +352,9 @@ def build_graph(spec):
 
 
 # ------------------------------------------------------------------------------ real graph -> description
-def describe_graph(g):
+def describe_graph(g, with_nodes=False):
     """identity-based traversal of a real Graph: nodes in a topological order (parents first) with
-    everything the property talks about.  Returns (descs, index by id)."""
+    everything the property talks about.  Returns (descs, sink indices[, the node objects in the same order])."""
     order, seen = [], {}
 
     def visit(node):
@@ -359,6 +378,8 @@ def describe_graph(g):
             pay = {"kind": "other"}
         descs.append({"name": node.name, "outputs": list(node.outputs), "payload": pay,
                       "inputs": [[iname, seen[id(src.parent)], src.name] for iname, src in node.inputs.items()]})
+    if with_nodes:
+        return descs, [seen[id(s)] for s in g.sinks], order
     return descs, [seen[id(s)] for s in g.sinks]
 
 
@@ -467,7 +488,8 @@ def eff_beh(beh, d):
 def oracle_graph(descs, sinks, fluent_coords, behs, lowered, obs, fails, single=()):
     """direct reading of the property.  descs: the graph as the author declared it (reachable nodes,
     parents first); fluent_coords: {(node name, output name): coordinate index} for fluent multi-output
-    nodes, None for hand-built graphs; lowered: ("job", canon) | ("raised", name)."""
+    nodes, None for hand-built graphs; lowered: ("job", canon) | ("raised", name); obs None = only the
+    lowering is judged (no task was run on this job)."""
     names = [d["name"] for d in descs]
     if len(set(names)) != len(names):
         return          # names must be unique within a graph (documented; serialise asserts)
@@ -516,6 +538,9 @@ def oracle_graph(descs, sinks, fluent_coords, behs, lowered, obs, fails, single=
             fails.append(("lowering-outputs", f"node {d['name']}: outputs {t['oschema']} for declared {d['outputs']}"))
         if t["fid"] != d["payload"]["fid"]:
             fails.append(("lowering-callable", f"node {d['name']}: task carries callable {t['fid']}, node {d['payload']['fid']}"))
+
+    if obs is None:
+        return
 
     # direct evaluation of the graph
     def outs_of(d):
@@ -696,11 +721,37 @@ def clow(lowered):
 
 
 # ------------------------------------------------------------------------------ one graph case, end to end
-def run_graph_case(g, behs, publish_seed, fluent_coords=None, single=()):
-    """returns (coq term or None, fails, info)"""
+def declared_args(args, nin):
+    """fluent API contract: the declared arguments, then a placeholder for every input of the node that they do not name"""
+    out = [list(a) for a in args]
+    for x in range(nin):
+        if ["str", f"input{x}"] not in out:
+            out.append(["str", f"input{x}"])
+    return out
+
+
+def run_graph_case(g, behs, publish_seed, fluent_coords=None, single=(), declared=None):
+    """returns (coq term or None, fails, info).  declared: {id(node): (fid, args, kwargs)} -- what the author of a
+    fluent program declared for the nodes of g (generator (e)); the oracle then judges against THAT, the Coq model of
+    lowering is compared on the graph as it was really built"""
     from cascade.low.into import graph2job
     fails = []
-    descs, sinks = describe_graph(g)
+    descs, sinks, order = describe_graph(g, with_nodes=True)
+    odescs = descs
+    if declared is not None:
+        odescs = []
+        for d, node in zip(descs, order):
+            dec = declared.get(id(node))
+            if dec is None or d["payload"] is None or d["payload"]["kind"] != "tuple":
+                odescs.append(d)
+                continue
+            want = {"kind": "tuple", "fid": dec[0], "args": declared_args(dec[1], len(d["inputs"])), "kwargs": [list(kv) for kv in dec[2]]}
+            got = d["payload"]
+            if (got["fid"], got["args"]) != (want["fid"], want["args"]) or sorted(map(json.dumps, got["kwargs"])) != sorted(map(json.dumps, want["kwargs"])):
+                fails.append(("fluent-node-arguments-not-as-declared",
+                              f"node {d['name'][:24]} with {len(d['inputs'])} inputs: payload args={got['args']} kwargs={got['kwargs']} (callable {got['fid']}), "
+                              f"declared args={want['args']} kwargs={want['kwargs']} (callable {want['fid']})"))
+            odescs.append({**d, "payload": want})
     try:
         job = graph2job(g)
         lowered = ("job", job_canon(job))
@@ -709,7 +760,17 @@ def run_graph_case(g, behs, publish_seed, fluent_coords=None, single=()):
     obs = {"ps": ["ok", []], "runs": [], "lasts": []}
     if job is not None:
         obs = run_job(job, publish_seed)
-    oracle_graph(descs, sinks, fluent_coords, behs, lowered, obs, fails, single)
+    oracle_graph(odescs, sinks, fluent_coords, behs, lowered, obs, fails, single)
+    if job is not None:
+        # lowering and running must not have written to the graph: lowered once more it is judged like the first time
+        try:
+            again = ("job", job_canon(graph2job(g)))
+        except Exception as e:
+            again = ("raised", exn_name(e))
+        if again != lowered:
+            n0 = len(fails)
+            oracle_graph(odescs, sinks, fluent_coords, behs, again, None, fails, single)
+            fails[n0:] = [("second-" + sig, "the graph lowered a second time, after its tasks ran: " + what) for sig, what in fails[n0:]]
     ALIAS.clear()
     if fluent_coords is not None:
         ALIAS.update({d["name"]: f"N{i}" for i, d in enumerate(descs)})
@@ -843,6 +904,349 @@ def run_fnode_case(c):
     return term, fails
 
 
+# ------------------------------------------------------------------------------ fluent programs with re-used objects
+BUILTIN_REDUCTIONS = ["sum", "max", "min", "prod"]
+SRC_SIZES = [1, 2, 3, 3, 4, 5, 5, 7, 8, 8]
+BATCHES = [0, 0, 2, 3, 3, 4, 5]
+
+
+def gen_decl_args(rng, explicit):
+    """arguments as an author writes them: statics, sometimes explicit placeholders (in any order, any subset)"""
+    args = [gen_val(rng) for _ in range(rng.choice([0, 0, 0, 1, 2]))]
+    if explicit:
+        for x in rng.sample([0, 1, 2, 3], rng.choice([1, 1, 2])):
+            args.insert(rng.randrange(len(args) + 1), ["str", f"input{x}"])
+    return args
+
+
+def gen_fprog_spec(rng):
+    """a program of the fluent API over a POOL of caller-held payloads that are used again and again"""
+    npool = rng.choice([1, 1, 2, 2, 3])
+    pool = []
+    for i in range(npool):
+        form = rng.choice(["payload", "payload", "payload", "payload", "partial", "callable"])
+        fid = i if (i == 0 or rng.random() < 0.7) else rng.randrange(i)      # one callable in two payloads
+        e = {"fid": fid, "form": form, "args": [], "kwargs": [], "alias_of": None}
+        prev = [j for j in range(i) if pool[j]["form"] == "payload"]
+        if form == "payload" and prev and rng.random() < 0.3:
+            j = rng.choice(prev)       # built from the very same list and dict objects as payload j
+            e.update(args=stored(pool[j]["args"]), kwargs=stored(pool[j]["kwargs"]), alias_of=j)
+        elif form != "callable":
+            e["args"] = gen_decl_args(rng, rng.random() < 0.3)
+            e["kwargs"] = [[k, gen_val(rng)] for k in rng.sample(KW_NAMES, rng.choice([0, 0, 1]))]
+        pool.append(e)
+    steps, acts, done = [], [], set()      # acts: the dims [(name, size)] of the action each step yields
+    nnodes = 0
+
+    def content(pi):
+        return json.dumps([pool[pi]["fid"], pool[pi]["args"], pool[pi]["kwargs"]])
+
+    def source():
+        n = rng.choice(SRC_SIZES)
+        els = [rng.randrange(npool)] * n if rng.random() < 0.5 else [rng.randrange(npool) for _ in range(n)]
+        steps.append(["source", els])
+        acts.append([(f"d{len(steps) - 1}", n)])
+        return n
+    nnodes += source()
+    for _ in range(rng.choice([1, 2, 2, 3, 3, 4, 5])):
+        if nnodes > 22:
+            break
+        r = rng.random()
+        a = rng.randrange(len(acts))
+        if rng.random() < 0.5:
+            a = len(acts) - 1
+        dims = acts[a]
+        size = 1
+        for _, n in dims:
+            size *= n
+        pi = rng.randrange(npool)
+        with_dim = [i for i, d in enumerate(acts) if d]
+        if r < 0.12:
+            nnodes += source()
+        elif r < 0.4 or not with_dim:
+            if dims and rng.random() < 0.3:
+                steps.append(["mapa", a, [rng.randrange(npool) for _ in range(size)]])
+            else:
+                key = ("map", a, content(pi))
+                if key in done:
+                    continue
+                done.add(key)
+                steps.append(["map", a, pi])
+            acts.append(list(dims))
+            nnodes += size
+        elif r < 0.9:
+            if not dims:
+                a = rng.choice(with_dim)
+                dims = acts[a]
+            batch = rng.choice(BATCHES)
+            if rng.random() < 0.3:
+                name = rng.choice(BUILTIN_REDUCTIONS)
+                kwargs = [[k, gen_val(rng)] for k in rng.sample(KW_NAMES, rng.choice([0, 0, 1]))]
+                key = ("builtin", a, name, json.dumps(kwargs), batch)
+                step = ["builtin", a, name, batch, kwargs]
+            else:
+                key = ("reduce", a, content(pi), batch)
+                step = ["reduce", a, pi, batch]
+            if key in done:
+                continue
+            done.add(key)
+            steps.append(step)
+            acts.append(list(dims[1:]))
+            nnodes += size // dims[0][1] * (1 + (dims[0][1] // batch + 1 if 1 < batch < dims[0][1] else 0))
+        else:
+            same = [b for b in range(len(acts)) if b != a and acts[b] == dims]
+            if not same:
+                continue
+            b = rng.choice(same)
+            key = ("binop", a, b, content(pi))
+            if key in done:
+                continue
+            done.add(key)
+            steps.append(["binop", a, b, pi])
+            acts.append(list(dims))
+            nnodes += size
+    return {"kind": "fprog", "pool": pool, "steps": steps, "publish_seed": rng.randrange(2**32)}
+
+
+def realise_payload(e, funcs, objs, fluent):
+    """pool entry -> the object the author holds: a Payload, a functools.partial or the bare callable;
+    objs (by pool position): the list and dict objects a Payload was constructed from"""
+    import functools
+    f = funcs[e["fid"]]
+    if e["form"] != "payload":
+        objs.append(None)
+        if e["form"] == "callable":
+            return f
+        return functools.partial(f, *[realise_val(a) for a in e["args"]], **{k: realise_val(v) for k, v in e["kwargs"]})
+    if e.get("alias_of") is not None:
+        la, ka = objs[e["alias_of"]]
+    else:
+        la, ka = [realise_val(a) for a in e["args"]], {k: realise_val(v) for k, v in e["kwargs"]}
+    objs.append((la, ka))
+    return fluent.Payload(f, la, ka)
+
+
+def reach(nodes_data):
+    """all nodes an action's array leads to (parents first)"""
+    from earthkit.workflows.graph import Output
+    out, seen = [], set()
+
+    def visit(n):
+        if id(n) in seen:
+            return
+        seen.add(id(n))
+        for src in n.inputs.values():
+            visit(src.parent)
+        out.append(n)
+    for x in nodes_data.flatten():
+        visit(x.parent if isinstance(x, Output) else x)
+    return out
+
+
+def build_fprog(spec):
+    """real fluent program -> (graph, behs, declared {id(node): (fid, args, kwargs)}, keep-alive list, notes)"""
+    import numpy as np
+    from earthkit.workflows import fluent
+    from earthkit.workflows.graph import Graph
+    pool = spec["pool"]
+    nb = max(e["fid"] for e in pool) + 1
+    behs = {str(f): ["ret"] for f in range(nb + len(BUILTIN_REDUCTIONS))}
+    funcs = {}
+    for f in range(nb + len(BUILTIN_REDUCTIONS)):
+        funcs[f] = make_callable(f, ["ret"])
+        funcs[f].batchable = True
+    objs, held = [], []
+    for e in pool:
+        held.append(realise_payload(e, funcs, objs, fluent))
+    declared, alive, actions = {}, [], []
+
+    def decl_of(pi):
+        return (pool[pi]["fid"], pool[pi]["args"], pool[pi]["kwargs"])
+
+    def attribute(action, whole=None, each=None):
+        if each is not None:
+            data = action.nodes.data
+            for idx, pi in zip(np.ndindex(*data.shape), each):
+                n = data[idx]
+                if id(n) not in declared:
+                    declared[id(n)] = decl_of(pi)
+                    alive.append(n)
+        for n in reach(action.nodes.data):
+            if id(n) not in declared:
+                declared[id(n)] = whole     # None = not attributed: judged as built
+                alive.append(n)
+        actions.append(action)
+
+    patched = []
+    try:
+        for bi, name in enumerate(BUILTIN_REDUCTIONS):
+            had = name in vars(fluent.backends)
+            patched.append((name, had, vars(fluent.backends).get(name)))
+            setattr(fluent.backends, name, funcs[nb + bi])
+        for si, st in enumerate(spec["steps"]):
+            if st[0] == "source":
+                els = st[1]
+                arr = np.empty((len(els),), dtype=object)
+                for i, pi in enumerate(els):
+                    arr[i] = held[pi]
+                dim = f"d{si}"
+                attribute(fluent.from_source(arr, dims=[dim], coords={dim: list(range(len(els)))}), each=els)
+            elif st[0] == "map":
+                attribute(actions[st[1]].map(held[st[2]]), whole=decl_of(st[2]))
+            elif st[0] == "mapa":
+                src = actions[st[1]]
+                arr = np.empty(src.nodes.shape, dtype=object)
+                for idx, pi in zip(np.ndindex(*arr.shape), st[2]):
+                    arr[idx] = held[pi]
+                attribute(src.map(arr), each=st[2])
+            elif st[0] == "reduce":
+                attribute(actions[st[1]].reduce(held[st[2]], batch_size=st[3]), whole=decl_of(st[2]))
+            elif st[0] == "builtin":
+                bi = BUILTIN_REDUCTIONS.index(st[2])
+                act = getattr(actions[st[1]], st[2])(batch_size=st[3], backend_kwargs={k: realise_val(v) for k, v in st[4]})
+                attribute(act, whole=(nb + bi, [], st[4]))
+            elif st[0] == "binop":
+                joined = actions[st[1]].join(actions[st[2]], f"j{si}", match_coord_values=True)
+                attribute(joined.reduce(held[st[3]], dim=f"j{si}"), whole=decl_of(st[3]))
+            else:
+                raise ValueError(st[0])
+    finally:
+        for name, had, val in patched:
+            if had:
+                setattr(fluent.backends, name, val)
+            elif name in vars(fluent.backends):
+                delattr(fluent.backends, name)
+    # one graph out of the actions, latest first; an action whose node names clash with nodes already taken is left out
+    taken, names, skipped = [], {}, 0
+    for act in reversed(actions):
+        ns = reach(act.nodes.data)
+        if any(names.get(n.name, n) is not n for n in ns):
+            skipped += 1
+            continue
+        for n in ns:
+            if n.name not in names:
+                names[n.name] = n
+                taken.append(n)
+    parents = {id(src.parent) for n in taken for src in n.inputs.values()}
+    g = Graph([n for n in taken if id(n) not in parents])
+    return g, behs, declared, (alive, held, objs), {"skipped_actions": skipped}
+
+
+# ------------------------------------------------------------------------------ programs of Payload / Node / copy calls
+NIN_CHOICES = [0, 0, 1, 1, 2, 2, 3, 4, 11, 12]
+
+
+def gen_fbuild_spec(rng):
+    ops, npay, nnode = [], 0, 0
+    for _ in range(rng.choice([3, 4, 5, 6, 8])):
+        r = rng.random()
+        if npay == 0 or r < 0.2:
+            prev = [i for i, o in enumerate(ops) if o[0] == "payload" and o[4] == "plain"]
+            if prev and rng.random() < 0.35:
+                j = rng.choice(prev)       # same list and dict objects as that earlier Payload(...) call (referred to by its payload number)
+                ops.append(["payload", rng.choice([ops[j][1], npay]), stored(ops[j][2]), stored(ops[j][3]), "plain", sum(1 for o in ops[:j] if o[0] == "payload")])
+            else:
+                ops.append(["payload", npay if rng.random() < 0.7 else rng.randrange(npay + 1), gen_decl_args(rng, rng.random() < 0.4),
+                            [[k, gen_val(rng)] for k in rng.sample(KW_NAMES, rng.choice([0, 0, 1]))], rng.choice(["plain", "plain", "partial"]), None])
+            npay += 1
+        elif r < 0.8:
+            ops.append(["node", rng.randrange(npay) if rng.random() < 0.4 else npay - 1, rng.choice(NIN_CHOICES), rng.choice([1, 1, 1, 2, 11])])
+            nnode += 1
+        elif r < 0.9 and nnode:
+            ops.append(["copy", rng.randrange(nnode)])
+            nnode += 1
+        else:
+            part = rng.random() < 0.5
+            ops.append(["nodef", rng.randrange(npay + 1), gen_decl_args(rng, rng.random() < 0.4) if part else [],
+                        [[k, gen_val(rng)] for k in rng.sample(KW_NAMES, rng.choice([0, 1]))] if part else [],
+                        rng.choice(NIN_CHOICES), 1, "partial" if part else "callable"])
+            nnode += 1
+    return {"kind": "fbuild", "ops": ops}
+
+
+def small_fbuild_specs(thorough):
+    """small scope, exhaustively: one Payload object used for every sequence of input counts"""
+    import itertools
+    decls = [[], [["str", "input1"], ["lit", 3]], [["lit", 3]], [["str", "input0"]], [["str", "input2"], ["str", "input0"]]] if thorough else [[], [["str", "input1"], ["lit", 3]]]
+    out = []
+    for args in decls:
+        for ln in ([2, 3] if thorough else [2]):
+            for seq in itertools.product(range(4), repeat=ln):
+                out.append({"kind": "fbuild", "flavour": "small-scope",
+                            "ops": [["payload", 0, stored(args), [], "plain", None]] + [["node", 0, n, 1] for n in seq]})
+    return out
+
+
+def run_fbuild_case(spec):
+    import functools
+    from earthkit.workflows import fluent
+    from earthkit.workflows.graph import Node as BaseNode
+    parents = [BaseNode(f"p{i}", payload=None) for i in range(13)]
+    funcs, pays, given, nodes, decl, fails = {}, [], [], [], [], []
+
+    def fn(fid):
+        if fid not in funcs:
+            funcs[fid] = make_callable(fid, ["ret"])
+        return funcs[fid]
+
+    def partial_of(fid, args, kwargs):
+        return functools.partial(fn(fid), *[realise_val(a) for a in args], **{k: realise_val(v) for k, v in kwargs})
+    for o in spec["ops"]:
+        if o[0] == "payload":
+            _, fid, args, kwargs, form, alias = o
+            if form == "partial":
+                obj = (None, None)
+                pays.append(fluent.Payload(partial_of(fid, args, kwargs)))
+            else:
+                obj = given[alias] if alias is not None else ([realise_val(a) for a in args], {k: realise_val(v) for k, v in kwargs})
+                pays.append(fluent.Payload(fn(fid), obj[0], obj[1]))
+            given.append(obj)
+            decl.append((fid, args, kwargs))
+        elif o[0] == "node":
+            nodes.append(fluent.Node(pays[o[1]], parents[:o[2]], num_outputs=o[3]))
+        elif o[0] == "nodef":
+            _, fid, args, kwargs, nin, nout, form = o
+            nodes.append(fluent.Node(partial_of(fid, args, kwargs) if form == "partial" else fn(fid), parents[:nin], num_outputs=nout))
+        elif o[0] == "copy":
+            nodes.append(nodes[o[1]].copy())
+        else:
+            raise ValueError(o[0])
+    # what the author declared for each node
+    want = []
+    for o in spec["ops"]:
+        if o[0] == "node":
+            want.append((decl[o[1]], o[2]))
+        elif o[0] == "nodef":
+            want.append(((o[1], o[2], o[3]), o[4]))
+        elif o[0] == "copy":
+            want.append(want[o[1]])
+    nobs = []
+    for node, ((fid, args, kwargs), nin) in zip(nodes, want):
+        got = (node.payload[0]._c10_fid, [canon(a) for a in node.payload[1]], [[k, canon(v)] for k, v in node.payload[2].items()])
+        nobs.append(got + (list(node.inputs), list(node.outputs)))
+        exp_args = declared_args(args, nin)
+        if got[0] != fid or got[1] != exp_args or sorted(map(json.dumps, got[2])) != sorted(map(json.dumps, kwargs)):
+            fails.append(("fluent-node-arguments-not-as-declared",
+                          f"node #{len(nobs) - 1} with {nin} inputs: payload args={got[1]} kwargs={got[2]} (callable {got[0]}), declared args={exp_args} kwargs={kwargs} (callable {fid})"))
+        for x in range(nin):
+            if f"input{x}" not in node.payload[1]:
+                fails.append(("fluent-input-not-placed", f"input{x} is not named by any argument: {node.payload[1]}"))
+    pobs = [(p.func._c10_fid, [canon(a) for a in p.args], [[k, canon(v)] for k, v in p.kwargs.items()]) for p in pays]
+    cops = []
+    for o in spec["ops"]:
+        if o[0] == "payload":
+            cops.append(f"OPayload {cN(o[1])} {clist(o[2], cval)} {ckw(o[3])}")
+        elif o[0] == "node":
+            cops.append(f"ONode {cnat(o[1])} {cnat(o[2])} {cnat(o[3])}")
+        elif o[0] == "nodef":
+            cops.append(f"ONodeFunc {cN(o[1])} {clist(o[2], cval)} {ckw(o[3])} {cnat(o[4])} {cnat(o[5])}")
+        else:
+            cops.append(f"OCopyNode {cnat(o[1])}")
+    cn = clist([f"({cN(f)}, {clist(a, cval)}, {ckw(k)}, {clist(i, cstr)}, {clist(u, cstr)})" for f, a, k, i, u in nobs])
+    cp = clist([f"({cN(f)}, {clist(a, cval)}, {ckw(k)})" for f, a, k in pobs])
+    return f"({clist(cops)}, {cn}, {cp})", fails
+
+
 # ------------------------------------------------------------------------------ hand-written jobs
 def gen_job_spec(rng):
     n = rng.choice([1, 2, 3, 4])
@@ -933,7 +1337,10 @@ def oracle_job(spec, obs, fails):
 def run_job_case(spec):
     fails = []
     job = build_job(spec)
-    obs = run_job(job, spec["publish_seed"], order=[t["name"] for t in spec["tasks"]])
+    order = [t["name"] for t in spec["tasks"]]
+    # one task runs a second time (a retried task): the job object must not have been written to by the first run
+    order.append(order[spec["publish_seed"] % len(order)])
+    obs = run_job(job, spec["publish_seed"], order=order)
     oracle_job(spec, obs, fails)
     term = f"({cjob(job_canon(job))}, {cbehs(spec['behs'])}, {cobs_tail(obs)})"
     return term, fails, obs
@@ -960,6 +1367,19 @@ def run_spec(spec):
     if spec["kind"] == "fnode":
         term, fails = run_fnode_case(spec)
         return "fnode", term, fails, {}
+    if spec["kind"] == "fprog":
+        try:
+            g, behs, declared, keep, notes = build_fprog(spec)
+        except Exception as e:
+            # whether the fluent API accepts a program is not C10's business (shapes, coordinates: C13 / C14)
+            return "none", None, [], {"build_raised": exn_name(e)}
+        term, fails, info = run_graph_case(g, behs, spec["publish_seed"], fluent_coords={}, declared=declared)
+        info.update(notes)
+        info["arities"] = sorted({(d["payload"]["fid"], len(d["inputs"])) for d in info["descs"] if d["payload"] and d["payload"]["kind"] == "tuple"})
+        return "graph", term, fails, info
+    if spec["kind"] == "fbuild":
+        term, fails = run_fbuild_case(spec)
+        return "fbuild", term, fails, {}
     raise ValueError(spec["kind"])
 
 
@@ -989,6 +1409,9 @@ def gen_specs(ctx, rng):
     specs += [gen_fluent_spec(rng) for _ in range(ctx.n(40, 1200))]
     specs += [gen_job_spec(rng) for _ in range(ctx.n(100, 4000))]
     specs += [{"kind": "fnode", **gen_fnode_case(rng)} for _ in range(ctx.n(60, 2000))]
+    specs += [gen_fprog_spec(rng) for _ in range(ctx.n(60, 2500))]
+    specs += [gen_fbuild_spec(rng) for _ in range(ctx.n(80, 3000))]
+    specs += small_fbuild_specs(ctx.tier == "thorough")
     # small scope, exhaustively: every output count n against every yield count n-2..n+2 (hand-built, zero-padded names), and n coordinates through fluent
     for n in (list(range(1, 61)) if ctx.tier == "thorough" else [1, 2, 3, 9, 10, 11, 12, 13, 20, 30]):
         for k in range(max(0, n - 2), n + 3):
@@ -1010,8 +1433,8 @@ def run(ctx, res):
     rng = ctx.sub_rng("cases")
     specs = gen_specs(ctx, rng)
     rng.shuffle(specs)          # big (fluent, many-output) cases spread over the shards
-    terms = {"graph": [], "job": [], "fnode": []}
-    metas = {"graph": [], "job": [], "fnode": []}
+    terms = {"graph": [], "job": [], "fnode": [], "fbuild": []}
+    metas = {"graph": [], "job": [], "fnode": [], "fbuild": []}
     for spec in specs:
         try:
             kind, term, fails, info = run_spec(spec)
@@ -1019,9 +1442,19 @@ def run(ctx, res):
             res.disagree(f"case cannot be run / written as a Coq term: {e}", stored(spec))
             continue
         classify(spec, fails, info, listed, res)
+        if kind == "none":
+            res.count("case:" + spec["kind"] + ":build-raised:" + info.get("build_raised", "?"))
+            continue
         terms[kind].append(term)
         metas[kind].append(spec)
         res.count("case:" + spec["kind"] + (":" + spec["flavour"] if spec.get("flavour") else ""))
+        if spec["kind"] == "fprog":
+            # how one callable's nodes differ in their number of inputs within one program (the re-use the generator is after)
+            by = {}
+            for f, n in info["arities"]:
+                by.setdefault(f, []).append(n)
+            res.count("fprog-input-counts-per-callable:" + str(min(3, max(len(v) for v in by.values()))) + ("+" if max(len(v) for v in by.values()) >= 3 else ""))
+            res.count("fprog-actions-left-out:" + str(info["skipped_actions"]))
         runs = [r for r in info.get("runs", []) if "skipped" not in r]
         if not runs:
             res.evaluations += 1
@@ -1039,8 +1472,8 @@ def run(ctx, res):
         if len(res.samples) < 4 and spec["kind"] in ("graph", "fluent") and info.get("edges", 0) >= 2 and spec not in WITNESSES:
             res.samples.append({"kind": spec["kind"], "nodes": [{k: d[k] for k in ("name", "outputs", "inputs")} for d in info["descs"]][:6],
                                 "runs": [{k: r[k] for k in ("task", "call", "handled", "exn")} for r in runs][:4]})
-    for kind, checker in (("graph", "check_graph"), ("job", "check_job"), ("fnode", "check_fluent")):
-        r, logs = coq_results("C10", HEADER, terms[kind], checker, shard=ctx.n(55, 150), tag=kind)
+    for kind, checker in (("graph", "check_graph"), ("job", "check_job"), ("fnode", "check_fluent"), ("fbuild", "check_fbuild")):
+        r, logs = coq_results("C10", HEADER, terms[kind], checker, shard=400 if kind in ("fnode", "fbuild") else ctx.n(55, 150), tag=kind)
         res.corr_checked += len(r)
         for ok, spec in zip(r, metas[kind]):
             if ok is not True:
@@ -1055,7 +1488,8 @@ def search(ctx, res):
     rng = ctx.sub_rng("search")
     listed = {f["signature"] for f in load_findings().get("open", []) if f.get("property") == "C10"}
     for i in range(2000):
-        spec = [gen_graph_spec(rng, "plain"), gen_shared_spec(rng), gen_fluent_spec(rng), gen_graph_spec(rng, "mismatch"), gen_graph_spec(rng, "many-outputs")][i % 5]
+        spec = [gen_graph_spec(rng, "plain"), gen_shared_spec(rng), gen_fluent_spec(rng), gen_graph_spec(rng, "mismatch"), gen_graph_spec(rng, "many-outputs"),
+                gen_fprog_spec(rng), gen_fbuild_spec(rng)][i % 7]
         try:
             _, _, fails, info = run_spec(spec)
         except Exception as e:
@@ -1070,7 +1504,7 @@ def search(ctx, res):
 def replay(ctx, case):
     warnings.simplefilter("ignore")
     c = case.get("case", case)
-    if not isinstance(c, dict) or c.get("kind") not in ("graph", "fluent", "job", "fnode"):
+    if not isinstance(c, dict) or c.get("kind") not in ("graph", "fluent", "job", "fnode", "fprog", "fbuild"):
         return {"fails": None, "note": "no concrete input stored (proof / correspondence breakage): re-run ./check C10"}
     _, _, fails, _ = run_spec(c)
     sig = case.get("signature")
